@@ -13,7 +13,7 @@ RS_TARGET = os.environ.get("VERIF_MUT_RS_TARGET") or "/tmp/ts-verif-mut-rs-targe
 WITNESS_TARGET = "/tmp/ts-verif-mut-witness-target-%d" % os.getpid()
 sys.path.insert(0, os.path.join(HERE, "engines"))
 sys.path.insert(0, os.path.join(HERE, "engines", "rules"))
-CRATES = ["tree_sitter_cli", "tree_sitter_loader", "tree_sitter_generate", "tree_sitter_highlight", "tree_sitter"]
+CRATES = ["tree_sitter_cli", "tree_sitter_loader", "tree_sitter_generate", "tree_sitter_highlight", "tree_sitter_tags", "tree_sitter"]
 KEYWORDS = {"self", "super", "crate", "in", "for", "if", "else", "match", "let", "mut", "ref", "fn", "move", "as", "loop", "while", "return", "break", "continue", "true", "false"}
 
 
@@ -26,7 +26,7 @@ def main():
         elif a == "--limit": limit = int(args.pop(0))
     import extract
     facts = {c: extract.rsfacts(c) for c in CRATES}
-    props = [prop] if prop else ["C01", "C07", "C10", "C13", "C14", "C15", "C17", "C19", "C20"]
+    props = [prop] if prop else ["C01", "C07", "C10", "C11", "C13", "C14", "C15", "C17", "C18", "C19", "C20"]
     jobs = []
     for p in props:
         ev = json.load(open(os.path.join(HERE, "evidence", p + ".json")))
